@@ -378,9 +378,14 @@ impl World for WorldD {
                     obs.count("op.handshake");
                     if must {
                         obs.count("oracle.C10.handshake_with_room_succeeds");
+                        obs.count("oracle.C18.handshake_with_room_succeeds");
                         let ok = r2 == "connected" && self.cl[i].client.as_ref().map(|c| c.is_connected()).unwrap_or(false) && self.ev.get(&id) == Some(&self.cl[i].addr);
                         if !ok {
-                            obs.violate("C10", "handshake-refused-with-room", if r1 != "challenge" { "request" } else { "response" }, format!("client {} id {}: request -> {}, response -> {}; {} sessions, limit {}", i, id, r1, r2, self.ev.len(), self.limit_model));
+                            let stage = if r1 != "challenge" { "request" } else { "response" };
+                            let detail = format!("client {} id {}: request -> {}, response -> {}; {} sessions, limit {}", i, id, r1, r2, self.ev.len(), self.limit_model);
+                            obs.violate("C10", "handshake-refused-with-room", stage, detail.clone());
+                            // C18: an honest client with a valid token and a lossless path connects to a server that has room
+                            obs.violate("C18", "handshake-refused-with-room", stage, detail);
                         }
                     }
                 }
@@ -599,8 +604,11 @@ impl World for WorldD {
             let r1 = self.request(i, obs);
             let r2 = if r1 == "challenge" { self.respond(i, obs) } else { "skipped" };
             obs.count("oracle.C10.handshake_with_room_succeeds");
+            obs.count("oracle.C18.handshake_with_room_succeeds");
             if r2 != "connected" || self.ev.get(&id) != Some(&self.cl[i].addr) {
-                obs.violate("C10", "handshake-refused-with-room", "heal", format!("client {} id {}: request -> {}, response -> {}; {} sessions, limit {}", i, id, r1, r2, self.ev.len(), self.limit_model));
+                let detail = format!("client {} id {}: request -> {}, response -> {}; {} sessions, limit {}", i, id, r1, r2, self.ev.len(), self.limit_model);
+                obs.violate("C10", "handshake-refused-with-room", "heal", detail.clone());
+                obs.violate("C18", "handshake-refused-with-room", "heal", detail);
                 break;
             }
         }
@@ -609,7 +617,7 @@ impl World for WorldD {
     }
 
     fn panic_props(&self, _op: Option<&Op>) -> Vec<String> {
-        vec!["C10".to_string()]
+        vec!["C10".to_string(), "C18".to_string()]
     }
 
     fn op_names(&self) -> &'static [&'static str] {
